@@ -27,13 +27,17 @@ def plan(tier, seed):
                       operands=[L[n] for n in ["D22c", "D23", "Dg2", "I3"]], small=[L["D22c"], L["Dg2"]],
                       acts={"BlockDiag", "BlockDiag3", "Kronecker", "Sum", "Product", "op_block_diag", "op_kron",
                             "op_add", "op_matmul", "op_kronsum"}, lvl=2, dim=12, scalars=sc[:2])
+    # size-1 operands: NumPy broadcasting must never stand in for the shape check (a 1x1 operator plus an n x n one)
+    one = [catalog.diag([3], "f64"), catalog.dense([[2]], "f32"), catalog.ident(1, "f64"), catalog.scalarmul(catalog.q(2), 1, "f64")]
+    ones = dict(seeds=one + [L[n] for n in ["Dg2", "Dg3", "D22", "I2", "Sc2", "D33"]], operands=one + [L["Dg3"], L["D22"]],
+                small=[one[0], L["Dg2"]], acts=API, lvl=1, dim=9, scalars=sc[:1])
     if tier == "quick":
         ops = [L[n] for n in ["D22", "D23", "D32c", "Dg2c", "I2", "Sc2", "Dg2"]] + [arrs["A22"], arrs["A23"]]
         seeds2 = [L[n] for n in ["D22c", "D23", "Dg2", "I2", "Sc2", "P3", "R0",
                                  "Sc3", "TL22"]]
         small = [L["D22c"], L["Dg2"], arrs["A22"]]
         return [
-            structured,
+            structured, ones,
             dict(seeds=all_leaves, operands=all_leaves + list(arrs.values()), small=small, acts=API, lvl=1, dim=16,
                  scalars=sc),
             dict(seeds=seeds2[:7], operands=ops[:5] + [arrs["A22"]], small=small, acts=API, lvl=2, dim=6, scalars=sc[:5],
@@ -44,7 +48,7 @@ def plan(tier, seed):
         + list(arrs.values())
     small = [L["D22c"], L["Dg2"], arrs["A22"], L["I2"]]
     return [
-        structured,
+        structured, ones,
         dict(seeds=all_leaves, operands=all_leaves + list(arrs.values()), small=small, acts=API, lvl=1, dim=36,
              scalars=sc),
         dict(seeds=all_leaves, operands=ops, small=small[:3], acts=API, lvl=2, dim=8, scalars=sc),
